@@ -71,6 +71,8 @@ def select (j : Json) : R Json := do
   let ok ← fList (getList getBool) j "ok"
   let strict ← fList getBool j "strict"
   let hasinc ← fList getBool j "hasinc"
+  let vid ← fList (getList getNat) j "vid"
+  let vidA := (vid.map (·.toArray)).toArray
   let nc := ncand.toArray
   let okA := (ok.map (·.toArray)).toArray
   let stA := strict.toArray
@@ -84,7 +86,8 @@ def select (j : Json) : R Json := do
       | none => false
   let inp : SelInput := { ncand := fun r => nc.getD r 0, dis := disF,
                           okInc := fun c => (okA.getD c.1 #[]).getD c.2 false,
-                          hasStrict := fun r => stA.getD r false, hasInc := fun r => hiA.getD r false }
+                          hasStrict := fun r => stA.getD r false, hasInc := fun r => hiA.getD r false,
+                          vid := fun c => (vidA.getD c.1 #[]).getD c.2 0 }
   let c2 := groups.map (fun g => (g.1, step2 inp g.2))
   let c3 := step3 inp groups reqs c2
   let c4 := c3.map (fun (d, combos) => (d, step4 inp combos))
